@@ -295,11 +295,29 @@ def more_units(unit, tier):
                         transport=world.transport(), _queue_tx_conf=world.queue("tx_conf"))
         out = world.run(LUBA.send_dali_command, proto, cmd)
         ctx.cover()
-        carried = (bits + 7) // 8 in (2, 3)
-        if not carried:
-            ctx.prove("uncarriable-length-refused", out[0] == "raise", detail="outcome %r" % (out[:2],))
-            ctx.prove("nothing-written", len(world.writes) == 0)
+        # the packet announces 8 * (number of bytes) bits: only whole 16- and 24-bit frames are carried faithfully
+        ctx.prove("uncarriable-length-refused", out[0] == "raise",
+                  detail="a %d-bit frame was accepted and would go out as a %d-bit one" % (bits, 8 * ((bits + 7) // 8)))
+        ctx.prove("nothing-written", len(world.writes) == 0)
     unit("luba/send_dali_command/unsupported-length", r_luba_bad, use=CUSE)
+
+    def r_sci_bad(ctx, interp, fn):
+        world = World(ctx, interp)
+        install(interp, world)
+        bits = ctx.choose_int(ctx.int("bits", 1, 40), "frame length")
+        if bits in (8, 16, 24):
+            return
+        fr = ctx.new(F.ForwardFrame, _bits=bits, _data=0, _error=False)
+        cmd = ctx.new(C.Command, _data=fr)
+        proto = ctx.new(SCI, rx_idle=world.event(True, "rx_idle"), _tx_lock=world.lock("tx"), transport=world.transport(),
+                        _queue_rx_info=world.queue("info"),
+                        _device_settings=SER.DriverSCIRS232.SCIRS232DeviceSettings(True, False, True))
+        out = world.run(SCI.send_dali_command, proto, cmd)
+        ctx.cover()
+        ctx.prove("uncarriable-length-refused", out[0] == "raise",
+                  detail="a %d-bit frame was accepted and would go out as a %d-bit one" % (bits, 8 * ((bits + 7) // 8)))
+        ctx.prove("nothing-written", len(world.writes) == 0)
+    unit("sci/send_dali_command/unsupported-length", r_sci_bad, use=CUSE)
 
     def r_luba_checksum(ctx, interp, fn):
         n = ctx.choose_int(ctx.int("n", 3, 12), "length")
@@ -416,6 +434,48 @@ def more_units(unit, tier):
         ctx.prove("24-bit-command-refused", out[0] == "raise", detail="daliserver carries 16-bit frames only")
         ctx.prove("nothing-sent", len(sock.sent) == 0)
     unit("daliserver/send/24-bit-command", r_ds24, use=CUSE)
+
+
+    # ------------------------------------------------------------ frames of EVERY length the gateway cannot carry are refused
+    def refusal_unit(name, supported, send):
+        def r_refuse(ctx, interp, fn):
+            bits = ctx.int("bits", 1, 64)
+            ctx.assume(And([bits != b for b in supported]))
+            fr = ctx.new(F.ForwardFrame, _bits=bits, _data=ctx.int("fdata", 0, (1 << 64) - 1), _error=False)
+            ctx.assume(fr._data < (1 << bits) if isinstance(bits, int) else True)
+            cmd = ctx.new(C.Command, _data=fr, sendtwice=False, response=None, devicetype=0)
+            raised, sent = send(ctx, interp, cmd)
+            ctx.cover()
+            ctx.prove("every-uncarriable-length-refused", raised,
+                      detail="a %s-bit frame was accepted (supported: %r)" % (bits, supported))
+            ctx.prove("nothing-sent", sent == 0)
+        unit(name, r_refuse, use=CUSE)
+
+    def send_ds(ctx, interp, cmd):
+        sock = SockModel(ctx)
+        srv = ctx.new(DS.DaliServer, _s=sock, _target=("localhost", 1), _multiple_frames_per_connection=True)
+        try:
+            interp.call(interp.get_attr(srv, "send"), (cmd,), {})
+            return False, len(sock.sent)
+        except RaiseEx:
+            return True, len(sock.sent)
+    refusal_unit("daliserver/send/any-other-length", (16,), send_ds)
+
+    def construct_of(drv_builder):
+        def send(ctx, interp, cmd):
+            drv = drv_builder(ctx)
+            try:
+                interp.call(interp.get_attr(drv, "construct"), (cmd,), {})
+                return False, 0
+            except RaiseEx:
+                return True, 0
+        return send
+    refusal_unit("legacy-tridonic/construct/any-other-length", (16,),
+                 construct_of(lambda ctx: ctx.new(LT.TridonicDALIUSBDriver, _next_sn=1)))
+    refusal_unit("legacy-hasseb/construct/any-other-length", (16,),
+                 construct_of(lambda ctx: ctx.new(LH.HassebDALIUSBDriver, sn=0, logger=logging.getLogger("x"))))
+    refusal_unit("unipi/construct/any-other-length", (16, 24),
+                 construct_of(lambda ctx: ctx.new(LU.UnipiDALIDriver, _next_sn=0)))
 
     # ------------------------------------------------------------ legacy Tridonic USB driver
     for name in REAL_NAMES:
